@@ -37,12 +37,15 @@ CONSTANTS NNode,      \* nodes of database "1" are 0..NNode-1
           NCand, CandSize,  \* simulation only: number / expected size of candidate edge sets
           Lifecycle,  \* TRUE: the life-cycle actions of the loading connection B are part of Next
           Savepoints, MaxSp,  \* TRUE: Savepoint / Rollback(k) are part of Next; bound on live savepoints
+          ImportSlots,  \* nodes that come into being only through ImportCopy (importFile); {} = no imports, no Abort
           Touches,    \* TRUE: TouchElsewhere (the loading connection changes and commits an object) is part of Next
           \* deviations: TRUE = the code as it is (TLC then exhibits the violated property), FALSE = the repaired design
           SavepointOrphans,           \* a commit copies EVERY record of the savepoint store, reachable or not
           Py2Remap,                   \* broken.find_global renames py2 stdlib module names in every record it reads
           BrokenContainerUnloadable,  \* a missing list / dict subclass in a state makes the owner unloadable
-          BrokenReduceLosesArgs       \* a placeholder built by Class(*args) is written back as Class.__new__(*args)
+          BrokenReduceLosesArgs,      \* a placeholder built by Class(*args) is written back as Class.__new__(*args)
+          ImportNotCreating           \* importFile writes its objects to the savepoint store without entering them in
+                                      \* `creating`: abort / rollback leave the returned object owned, without a record
 
 VARIABLES kinds,      \* class kind of every node: "plain" | "newargs" | "gone" | "gonenew" | "py2mod"
           cand,       \* <<src, edge>> pairs AddEdge may choose from (all of them when model checking)
@@ -54,12 +57,13 @@ VARIABLES kinds,      \* class kind of every node: "plain" | "newargs" | "gone" 
           packed,     \* a pack with gc ran: connection A is not used any more
           touched,    \* the loading connection committed a change: connection A edits no more
           txn,        \* connection A's transaction: savepoint store (TmpStore) and savepoints, see Txn0
+          stale,      \* objects of connection A that own an oid for which no record exists anywhere (ghosts that cannot load)
           ops, commits,
           bconn,      \* the loading connection B of database "1" (pooled): [st, gen, hgen, pend]
           res,        \* the last operation (and what the replay must observe about B)
           obs         \* derived: ObsOf(kinds, stored)
 
-vars == <<kinds, cand, mem, hasOid, added, dirty, stored, packed, touched, txn, ops, commits, bconn, res, obs>>
+vars == <<kinds, cand, mem, hasOid, added, dirty, stored, packed, touched, txn, stale, ops, commits, bconn, res, obs>>
 
 Nodes == 0..(NNode - 1)
 Root == 0
@@ -81,7 +85,9 @@ Gone(c) == c \in {"gone", "gonenew"}                 \* class not importable whe
 \* "py2mod": an ordinary, importable class whose module is called like a Python 2 stdlib module ('Queue')
 \* a record is read as a placeholder (ZODB.broken) if its class is missing - or, deviation, renamed away
 Placeholder(c) == Gone(c) \/ (Py2Remap /\ c = "py2mod")
-Unloadable(es) == BrokenContainerUnloadable /\ \E e \in es : e.holder \in {"glist", "gdict"}
+\* can the record of n be loaded where the "gone" classes are missing?  "container": a missing list / dict subclass
+\* in the state (deviation); "dangling": a class-less reference ("o": the target's class has __getnewargs__) to an
+\* oid without a record - ObjectReader.load_oid needs the target's record to make the ghost; else "ok"
 
 (* ------------- ObjectWriter.persistent_id: the reference written -------- *)
 \* "w"  ['w', (oid,)]            weak, same database
@@ -104,6 +110,11 @@ RECURSIVE Closure(_, _, _)
 Closure(m, hasO, S) ==
   LET T == S \cup {e.dst : e \in {x \in UNION {m[n] : n \in S} : Queued(hasO, x)}}
   IN IF T = S THEN S ELSE Closure(m, hasO, T)
+
+Loadable(k, st, n) ==
+  IF BrokenContainerUnloadable /\ \E e \in st[n].e : e.holder \in {"glist", "gdict"} THEN "container"
+  ELSE IF \E e \in st[n].e : Format(k, e) = "o" /\ ~st[e.dst].p THEN "dangling"
+  ELSE "ok"
 
 (* ------------- referencesf / get_refs: case analysis on the format ------ *)
 \* tuple -> reference[0]; bytes/str -> the reference; list -> skipped
@@ -128,7 +139,7 @@ Importable(k, st, n) == /\ st[n].p
 
 ObsOf(k, st) ==
   [view |-> [n \in Nodes |->
-               [p |-> st[n].p, broken |-> Placeholder(k[n]), loadable |-> ~Unloadable(st[n].e),
+               [p |-> st[n].p, broken |-> Placeholder(k[n]), loadable |-> Loadable(k, st, n),
                 e |-> {[dst |-> e.dst, kind |-> e.kind, holder |-> e.holder, fmt |-> Format(k, e),
                         alive |-> IF e.dst \in FNodes THEN TRUE ELSE st[e.dst].p] : e \in st[n].e}]],
    refs |-> [n \in Nodes |-> Extracted(k, st[n].e)],
@@ -171,14 +182,15 @@ BStep(op, b) ==
 \* tmp  its records; cre its `creating` (objects that have no committed record); sps the live savepoints, each
 \*      the (index, creating) the store had; xadd objects add()ed in this transaction (for the property only)
 NoRecs == [n \in Nodes |-> Absent]
-Txn0 == [on |-> FALSE, tmp |-> NoRecs, cre |-> {}, sps |-> <<>>, xadd |-> {}]
+\*      imp  objects importFile returned in this transaction
+Txn0 == [on |-> FALSE, tmp |-> NoRecs, cre |-> {}, sps |-> <<>>, xadd |-> {}, imp |-> {}]
 Overlay(base, t) == [n \in Nodes |-> IF t[n].p THEN t[n] ELSE base[n]]
 
 InitWith(k, c, m, ad) ==
   /\ kinds = k /\ cand = c /\ mem = m
   /\ added = ad /\ hasOid = {Root} \cup ad
   /\ dirty = IF m[Root] = {} THEN {} ELSE {Root}
-  /\ stored = Store0 /\ packed = FALSE /\ touched = FALSE /\ txn = Txn0 /\ ops = 0 /\ commits = 0
+  /\ stored = Store0 /\ packed = FALSE /\ touched = FALSE /\ txn = Txn0 /\ stale = {} /\ ops = 0 /\ commits = 0
   /\ bconn = B0
   /\ res = Op("init")
   /\ obs = ObsOf(k, Store0)
@@ -209,10 +221,11 @@ Step(name) == /\ ops' = ops + 1 /\ res' = Op(name)
 AddEdge(s, d, k, h) ==
   LET e == [dst |-> d, kind |-> k, holder |-> h] IN
   /\ Editing /\ <<s, e>> \in cand /\ e \notin mem[s] /\ NEdges < MaxEdges
+  /\ s \notin stale /\ {s, d} \cap (ImportSlots \ hasOid) = {}
   /\ mem' = [mem EXCEPT ![s] = @ \cup {e}]
   /\ dirty' = Touch(s)
   /\ Step("AddEdge")
-  /\ UNCHANGED <<kinds, cand, hasOid, added, stored, packed, touched, txn, commits, bconn, obs>>
+  /\ UNCHANGED <<kinds, cand, hasOid, added, stored, packed, touched, txn, stale, commits, bconn, obs>>
 
 RemoveEdge(s, d, k, h) ==
   LET e == [dst |-> d, kind |-> k, holder |-> h] IN
@@ -220,15 +233,15 @@ RemoveEdge(s, d, k, h) ==
   /\ mem' = [mem EXCEPT ![s] = @ \ {e}]
   /\ dirty' = Touch(s)
   /\ Step("RemoveEdge")
-  /\ UNCHANGED <<kinds, cand, hasOid, added, stored, packed, touched, txn, commits, bconn, obs>>
+  /\ UNCHANGED <<kinds, cand, hasOid, added, stored, packed, touched, txn, stale, commits, bconn, obs>>
 
 \* connection.add(obj): oid and jar at once, stored by the next commit whether reachable or not
 ExplicitAdd(n) ==
-  /\ Editing /\ n \notin hasOid
+  /\ Editing /\ n \notin hasOid /\ n \notin ImportSlots
   /\ hasOid' = hasOid \cup {n} /\ added' = added \cup {n}
   /\ txn' = [txn EXCEPT !.xadd = @ \cup {n}]
   /\ Step("ExplicitAdd")
-  /\ UNCHANGED <<kinds, cand, mem, dirty, stored, packed, touched, commits, bconn, obs>>
+  /\ UNCHANGED <<kinds, cand, mem, dirty, stored, packed, touched, stale, commits, bconn, obs>>
 
 CommitSet == Closure(mem, hasOid, dirty \cup added)
 Carries(e) == e.kind = "strong" \/ WeakAdds
@@ -246,28 +259,68 @@ Savepoint ==
   /\ Savepoints /\ Editing /\ Len(txn.sps) < MaxSp
   /\ (txn.on \/ dirty \cup added # {})          \* connection A has joined the transaction
   /\ txn' = [txn EXCEPT !.on = TRUE, !.tmp = Flushed, !.cre = FlushedCre,
-                         !.sps = Append(@, [tmp |-> Flushed, cre |-> FlushedCre])]
+                         !.sps = Append(@, [tmp |-> Flushed, cre |-> FlushedCre, imp |-> txn.imp])]
   /\ hasOid' = hasOid \cup CommitSet /\ dirty' = {} /\ added' = {}
   /\ Step("Savepoint")
-  /\ UNCHANGED <<kinds, cand, mem, stored, packed, touched, commits, bconn, obs>>
+  /\ UNCHANGED <<kinds, cand, mem, stored, packed, touched, stale, commits, bconn, obs>>
+
+\* who is disowned when the transaction goes back to a savepoint (cre0, imp0: its creating / imports) or aborts:
+\* objects created since, objects add()ed and pending - and, in the repaired design, objects imported since
+Disowned(cre0, imp0) == (txn.cre \ cre0) \cup added \cup (IF ImportNotCreating THEN {} ELSE txn.imp \ imp0)
+\* Not taken (property C11, not this one) while an object about to be disowned is registered as changed - abort
+\* invalidates it first and its only state is lost - or while an object that will have no oid afterwards holds a weak
+\* reference to one that is disowned: the WeakRef keeps the oid it was given
+CanDisown(created, D) ==
+  /\ created \cap dirty = {}
+  /\ \A s \in (Nodes \ hasOid) \cup D : \A e \in mem[s] : e.kind = "weak" => e.dst \notin D
 
 \* savepoint.rollback(): Connection._rollback_savepoint - registered objects are invalidated (add()ed ones
 \* disowned), objects created after the savepoint are disowned (they keep what they hold in memory), the store is
 \* reset and everything it held is invalidated: owned objects show the savepoint's state; later savepoints die.
-\* Not taken while an object that is about to be disowned is registered as changed: abort then invalidates it
-\* first and its only state is lost - property C11, not this one.
 Rollback(k) ==
   /\ Savepoints /\ Editing /\ k \in 1..Len(txn.sps)
   /\ LET sp == txn.sps[k]
-         D == (txn.cre \ sp.cre) \cup added
+         D == Disowned(sp.cre, sp.imp)
          keep == hasOid \ D IN
-     /\ (txn.cre \ sp.cre) \cap dirty = {}
+     /\ CanDisown(txn.cre \ sp.cre, D)
      /\ hasOid' = keep
      /\ mem' = [n \in Nodes |-> IF n \in keep THEN Overlay(stored, sp.tmp)[n].e ELSE mem[n]]
-     /\ txn' = [txn EXCEPT !.tmp = sp.tmp, !.cre = sp.cre, !.sps = SubSeq(@, 1, k), !.xadd = @ \ D]
+     /\ stale' = stale \cup ((txn.imp \ sp.imp) \cap keep)
+     /\ txn' = [txn EXCEPT !.tmp = sp.tmp, !.cre = sp.cre, !.sps = SubSeq(@, 1, k), !.xadd = @ \ D, !.imp = sp.imp]
   /\ dirty' = {} /\ added' = {}
   /\ Step("Rollback")
   /\ UNCHANGED <<kinds, cand, stored, packed, touched, commits, bconn, obs>>
+
+\* transaction abort in connection A: Connection.abort -> _abort, _abort_savepoint
+Abort ==
+  /\ ImportSlots # {} /\ Editing /\ (txn.on \/ dirty \cup added # {})
+  /\ LET D == Disowned({}, {})
+         keep == hasOid \ D IN
+     /\ CanDisown(txn.cre, D)
+     /\ hasOid' = keep
+     /\ mem' = [n \in Nodes |-> IF n \in keep THEN stored[n].e ELSE mem[n]]
+     /\ stale' = stale \cup (txn.imp \cap keep)
+  /\ txn' = Txn0 /\ dirty' = {} /\ added' = {}
+  /\ Step("Abort")
+  /\ UNCHANGED <<kinds, cand, stored, packed, touched, commits, bconn, obs>>
+
+\* copy = connection.importFile(connection.exportFile(oid of src)); copy.name = ...: importFile makes a savepoint
+\* (pending changes are flushed with it), writes the copies there under new oids and returns the first as a ghost;
+\* the harness then renames it (a change like any other).  Here the export holds one object: src refers to nothing
+\* but itself.
+CopyEdges(es, src, c) == {[e EXCEPT !.dst = c] : e \in es}
+ImportCopy(c, src) ==
+  /\ Editing /\ c \in ImportSlots \ hasOid /\ src \in hasOid \ (dirty \cup added \cup stale) /\ kinds[c] = kinds[src]
+  /\ kinds[src] # "py2mod"
+  /\ LET rec == Overlay(stored, txn.tmp)[src] IN
+     /\ rec.p /\ \A e \in rec.e : e.dst = src /\ Format(kinds, e) \in {"oc", "o"} /\ e.holder \in {"direct", "list", "dict", "deep"}
+     /\ txn' = [txn EXCEPT !.on = TRUE, !.tmp = [Flushed EXCEPT ![c] = Rec(CopyEdges(rec.e, src, c))],
+                            !.cre = FlushedCre \cup (IF ImportNotCreating THEN {} ELSE {c}),
+                            !.xadd = @ \cup {c}, !.imp = @ \cup {c}]
+     /\ mem' = [mem EXCEPT ![c] = CopyEdges(rec.e, src, c)]
+  /\ hasOid' = hasOid \cup CommitSet \cup {c} /\ dirty' = {c} /\ added' = {}
+  /\ Step("ImportCopy")
+  /\ UNCHANGED <<kinds, cand, stored, packed, touched, stale, commits, bconn, obs>>
 
 \* commit: without savepoints the closure is stored; with savepoints the pending changes are flushed like a
 \* savepoint and _commit_savepoint copies the records of the savepoint store - all of them (SavepointOrphans)
@@ -284,11 +337,11 @@ Commit ==
      /\ res' = [Op("Commit") EXCEPT !.orphans = IF SavepointOrphans THEN orph ELSE {}, !.dangling = Dangling(st)]
   /\ dirty' = {} /\ added' = {} /\ txn' = Txn0
   /\ commits' = commits + 1 /\ ops' = ops + 1
-  /\ UNCHANGED <<kinds, cand, mem, packed, touched, bconn>>
+  /\ UNCHANGED <<kinds, cand, mem, packed, touched, stale, bconn>>
 
 \* a second connection (and its sibling in database "2") loads everything: judged against obs
 \* B is opened if it is not open (from the pool once it exists), else brought to a new transaction; it stays open
-GraphVars == <<kinds, cand, mem, hasOid, added, dirty, stored, packed, touched, txn, commits, obs>>
+GraphVars == <<kinds, cand, mem, hasOid, added, dirty, stored, packed, touched, txn, stale, commits, obs>>
 BAction(op) == /\ ops' = ops + 1
                /\ bconn' = BStep(op, bconn).b /\ res' = BStep(op, bconn).res
                /\ UNCHANGED GraphVars
@@ -311,23 +364,23 @@ Rewritten(es) == {IF BrokenReduceLosesArgs /\ e.holder = "rvalue" THEN [e EXCEPT
 TouchElsewhere(n) ==
   /\ Touches /\ ops < MaxOps + 2 /\ ~packed /\ commits > 0
   /\ dirty = {} /\ added = {} /\ ~txn.on /\ bconn.st = "open"
-  /\ stored[n].p /\ ~Placeholder(kinds[n]) /\ ~Unloadable(stored[n].e)
+  /\ stored[n].p /\ ~Placeholder(kinds[n]) /\ Loadable(kinds, stored, n) = "ok"
   /\ LET st == [stored EXCEPT ![n] = Rec(Rewritten(@.e))] IN
      /\ stored' = st /\ obs' = ObsOf(kinds, st)
      \* connection A (classes importable) re-reads the object at its next transaction
      /\ mem' = [mem EXCEPT ![n] = {e \in st[n].e : e.holder # "rlost"}]
      /\ res' = [Op("TouchElsewhere") EXCEPT !.lost = IF st[n] # stored[n] THEN {n} ELSE {}]
   /\ touched' = TRUE /\ ops' = ops + 1
-  /\ UNCHANGED <<kinds, cand, hasOid, added, dirty, packed, txn, commits, bconn>>
+  /\ UNCHANGED <<kinds, cand, hasOid, added, dirty, packed, txn, stale, commits, bconn>>
 
 \* storage.pack(now, referencesf) with garbage collection, then nothing but loading
 Pack ==
-  /\ ~packed /\ commits > 0 /\ dirty = {} /\ added = {} /\ ~txn.on
+  /\ ~packed /\ commits > 0 /\ dirty = {} /\ added = {} /\ ~txn.on /\ Dangling(stored) = {}
   /\ packed' = TRUE
   /\ stored' = PackedStore(kinds, stored)
   /\ obs' = ObsOf(kinds, stored')
   /\ Step("Pack")
-  /\ UNCHANGED <<kinds, cand, mem, hasOid, added, dirty, touched, txn, commits, bconn>>
+  /\ UNCHANGED <<kinds, cand, mem, hasOid, added, dirty, touched, txn, stale, commits, bconn>>
 
 Next == \/ \E s \in Nodes, d \in Targets, k \in {"strong", "weak"}, h \in Holders : AddEdge(s, d, k, h)
         \/ \E s \in Nodes, d \in Targets, k \in {"strong", "weak"}, h \in Holders : RemoveEdge(s, d, k, h)
@@ -335,6 +388,8 @@ Next == \/ \E s \in Nodes, d \in Targets, k \in {"strong", "weak"}, h \in Holder
         \/ Commit
         \/ Savepoint
         \/ \E k \in 1..MaxSp : Rollback(k)
+        \/ Abort
+        \/ \E c \in ImportSlots, src \in Nodes : ImportCopy(c, src)
         \/ \E n \in Nodes : TouchElsewhere(n)
         \/ LoadElsewhere
         \/ MinimizeAllB \/ MinimizeSomeB \/ AbortB \/ CloseB \/ ResetCaches
@@ -364,6 +419,7 @@ TypeOK ==
   /\ stored \in [Nodes -> [p : BOOLEAN, e : SUBSET RecEdgeT]]
   /\ packed \in BOOLEAN /\ touched \in BOOLEAN
   /\ txn.on \in BOOLEAN /\ txn.cre \subseteq hasOid /\ txn.xadd \subseteq hasOid /\ Len(txn.sps) <= MaxSp
+  /\ txn.imp \subseteq hasOid /\ stale \subseteq hasOid /\ stale \cap dirty = {}
   /\ (~txn.on => txn = [Txn0 EXCEPT !.xadd = txn.xadd])
   /\ obs = ObsOf(kinds, stored)
 
@@ -382,10 +438,10 @@ WeakTargetsStored == ~packed => \A n \in Nodes : \A e \in stored[n].e : e.dst \i
 \* round trip: what another connection loads (= the record) is what connection A holds, for every
 \* object A has not changed since its commit; an object with an oid is stored unless add()ed and pending
 \* or created under a savepoint of the running transaction (then the savepoint store has it)
-Pending == added \cup txn.cre
+Pending == added \cup txn.cre \cup txn.imp \cup stale
 RoundTrip == (~packed /\ ~touched) =>
   /\ \A n \in hasOid \ Pending : stored[n].p
-  /\ \A n \in hasOid \ (added \cup dirty) : Overlay(stored, txn.tmp)[n].e = mem[n]
+  /\ \A n \in hasOid \ (added \cup dirty \cup stale) : Overlay(stored, txn.tmp)[n].e = mem[n]
   /\ \A n \in txn.cre : txn.tmp[n].p
   /\ \A n \in Nodes \ hasOid : ~stored[n].p
   /\ \A n \in Pending : ~stored[n].p
@@ -414,12 +470,14 @@ CommitTouchesOnlyClosure ==
 \* nothing but a commit or a pack changes the database
 OnlyCommitAndPackStore == [][stored' # stored => (IsCommit \/ packed' # packed \/ res'.op = "TouchElsewhere")]_vars
 \* nothing of a running transaction (savepoints included) is visible in the database
-SavepointsInvisible == [][res'.op \in {"Savepoint", "Rollback"} => stored' = stored /\ obs' = obs]_vars
+SavepointsInvisible == [][res'.op \in {"Savepoint", "Rollback", "Abort", "ImportCopy"} => stored' = stored /\ obs' = obs]_vars
+\* an object that owns an oid has a record, or its transaction is still running
+NoStaleObjects == stale = {}
 
 \* a class that is importable loads as itself; every stored object can be loaded; a change made by a connection that
 \* lacks a class leaves what it did not touch as it was (placeholders keep their state)
 PresentClassesLoad == \A n \in Nodes : (stored[n].p /\ obs.view[n].broken) => Gone(kinds[n])
-AllStoredLoad == \A n \in Nodes : stored[n].p => obs.view[n].loadable
+AllStoredLoad == \A n \in Nodes : stored[n].p => obs.view[n].loadable = "ok"
 \* the same two, judged where the replay observes them
 LoadedClassesArePresent == res.op = "LoadElsewhere" => PresentClassesLoad
 LoadedAllLoad == res.op = "LoadElsewhere" => AllStoredLoad
@@ -431,5 +489,5 @@ BOK == /\ bconn.hgen <= bconn.gen /\ bconn.st \in {"none", "open", "closed"}
 \* held objects stay valid unless a reset cache generation intervened
 SameUnlessReset == [][(res'.op = "LoadElsewhere" /\ bconn.hgen >= 0) => (res'.same <=> bconn'.gen = bconn.hgen)]_vars
 
-View == <<kinds, cand, mem, hasOid, added, dirty, stored, packed, touched, txn, ops, commits, bconn, res>>
+View == <<kinds, cand, mem, hasOid, added, dirty, stored, packed, touched, txn, stale, ops, commits, bconn, res>>
 =============================================================================
